@@ -126,7 +126,7 @@ static void one_model(const char* path) {
           p->actuator_act_dot(m, d, k);
         } else if (cb == 1) {
           for (int bit = 1; bit <= mjPLUGIN_SDF; bit <<= 1) {
-            if ((p->capabilityflags & bit) && (bit == mjPLUGIN_ACTUATOR || bit == mjPLUGIN_PASSIVE)) {
+            if ((p->capabilityflags & bit) && (bit == mjPLUGIN_ACTUATOR || bit == mjPLUGIN_PASSIVE || bit == mjPLUGIN_SENSOR)) {
               p->compute(m, d, k, bit);
             }
           }
